@@ -667,7 +667,8 @@ structure Mem where
   cnt : Nat
   acnt : Nat
 
-def St.mem (s : St) : Mem := ⟨s.next, s.mark, s.so, s.uk, s.val, s.cnt, s.acnt⟩
+/-- The memory part of a state (a notation, not a function: two states are never compared as a whole). -/
+macro "mem!" s:term:max : term => `(Mem.mk ($s).next ($s).mark ($s).so ($s).uk ($s).val ($s).cnt ($s).acnt)
 
 /-- Node `a` has been handed out: items by `insert` (odd ids), dummy nodes by `alloc_aux_node` (even ids). -/
 def Alloc (m : Mem) (a : Nat) : Prop := (a % 2 = 1 ∧ a < 2 * m.cnt + 1) ∨ (a % 2 = 0 ∧ a < 2 * m.acnt)
@@ -686,6 +687,12 @@ structure GOk (c : Cfg) (m : Mem) (tb : Nat → Option Nat) (k2 : Nat) (L : List
   tab0 : tb 0 = some 0
   cntb : k2 ≤ c.maxLog
 
+/-- Each bucket on the recursion stack of `init_bucket` is the parent of the one below it. -/
+def ParChain : List Nat → Prop
+  | [] => True
+  | [_] => True
+  | b' :: b :: rest => b' = parent b ∧ ParChain (b :: rest)
+
 /-- Clauses about one thread's program counter. -/
 structure TOk (c : Cfg) (m : Mem) (L : List Nat) (pc : PC) : Prop where
   item : ∀ n, pcTop pc = some (.ins n) → n % 2 = 1 ∧ Alloc m n ∧ n ∉ L ∧ m.mark n = false
@@ -703,7 +710,7 @@ structure TOk (c : Cfg) (m : Mem) (L : List Nat) (pc : PC) : Prop where
   start : ∀ d, pcStart pc = some d → d ∈ L ∧ d % 2 = 0 ∧ klt (m.so d) (m.uk d) (skeyS c m.so pc) (skeyU m.uk pc)
   szb : ∀ sz, pcSz pc = some sz → sz + 1 ≤ c.maxLog
   stkPre : ∀ o b, pcTop pc = some o → b ∈ pcStk pc → 0 < b ∧ Pre c (c.hash (tkey m.uk o)) b
-  stkPar : ∀ b' b rest, pcStk pc = b' :: b :: rest → b' = parent b
+  stkPar : ParChain (pcStk pc)
   bkt : ∀ o b, pcTop pc = some o → pcBkt pc = some b → Pre c (c.hash (tkey m.uk o)) b
   pp : ∀ p b rest, pcPP pc = some p → pcStk pc = b :: rest →
     p ∈ L ∧ p % 2 = 0 ∧ m.so p = c.dum (parent b) ∧ m.uk p = 0
@@ -716,18 +723,18 @@ structure Own (pc : Tid → PC) : Prop where
   eunl : ∀ t1 t2 k1 p1 a x1 k2 p2 x2, pc t1 = .eUnl k1 p1 a x1 → pc t2 = .eUnl k2 p2 a x2 → t1 = t2
 
 structure SInvL (c : Cfg) (s : St) (L : List Nat) : Prop where
-  g : GOk c s.mem s.table s.cnt2 L
-  thr : ∀ t, TOk c s.mem L (s.pc t)
+  g : GOk c (mem! s) s.table s.cnt2 L
+  thr : ∀ t, TOk c (mem! s) L (s.pc t)
   own : Own s.pc
 
 def SInv (c : Cfg) (s : St) : Prop := ∃ L, SInvL c s L
 
 theorem tok_idle (c : Cfg) (m : Mem) (L : List Nat) : TOk c m L .idle := by
-  constructor <;> simp [pcTop, pcStk, pcDum, pcStart, pcPrev, pcCur, pcNx, pcGtCur, pcEq, pcFrozen, pcPP, pcPub, pcBkt, pcSz]
+  constructor <;> simp [pcTop, pcStk, pcDum, pcStart, pcPrev, pcCur, pcNx, pcGtCur, pcEq, pcFrozen, pcPP, pcPub, pcBkt, pcSz, ParChain]
 
 theorem sinv_init (c : Cfg) (hc : SOHyp c) : SInvL c (init c) [0] := by
   refine ⟨?_, fun t => tok_idle _ _ _, ?_⟩
-  · constructor <;> simp [init, St.mem, Michael.Chain, Alloc, hc.dum0]
+  · constructor <;> simp [init, Michael.Chain, Alloc, hc.dum0]
     all_goals first | exact hc.log1 | (intro a h; omega) | (intro b d h; split at h <;> simp_all [hc.dum0])
   · constructor <;> simp [init, pcTop, pcDum]
 
@@ -1043,7 +1050,7 @@ structure StepEff (c : Cfg) (s : St) (t : Tid) (s' : St) (L L' : List Nat) : Pro
   frz : ∀ a, s.mark a = true → s'.mark a = true ∧ s'.next a = s.next a
   marks : ∀ a, s.mark a = false → s'.mark a = true →
     ∃ k d p x, s.pc t = .eMark k d p a x ∧ s'.pc t = .eUnl k p a x ∧ s.uk a = k ∧ a ∈ L ∧ a % 2 = 1
-  keys : ∀ a, Alloc s.mem a → s'.so a = s.so a ∧ s'.uk a = s.uk a ∧ s'.val a = s.val a
+  keys : ∀ a, Alloc (mem! s) a → s'.so a = s.so a ∧ s'.uk a = s.uk a ∧ s'.val a = s.val a
   tabmono : ∀ b d, s.table b = some d → s'.table b = some d
   grow : s'.cnt2 ≠ s.cnt2 → L' = L ∧ s'.next = s.next ∧ s'.mark = s.mark ∧ s'.table = s.table ∧
     s'.cnt2 = s.cnt2 + 1 ∧ lpRet c s.so s.uk s.val (s.pc t) = some [1]
@@ -1051,12 +1058,14 @@ structure StepEff (c : Cfg) (s : St) (t : Tid) (s' : St) (L L' : List Nat) : Pro
     lpRet c s.so s.uk s.val (s.pc t) = none ∧ lpRet c s'.so s'.uk s'.val (s'.pc t) = none
 
 macro "tok_close" : tactic =>
-  `(tactic| (constructor <;> intros <;> (try dsimp only [St.mem] at *) <;>
-      grind [upd, Alloc, klt, wtop, wstk, wdum, wnode, tkey, okeyS, okeyU, pcTop, pcStk, pcDum, pcStart, pcPrev, pcCur, pcNx,
-        pcGtCur, pcEq, pcFrozen, pcPP, pcPub, pcBkt, pcSz, skeyS, skeyU]))
+  `(tactic| (constructor <;> intros <;> (try dsimp only at *) <;>
+      first
+      | (simp [pcTop, pcStk, pcDum, pcStart, pcPrev, pcCur, pcNx, pcGtCur, pcEq, pcFrozen, pcPP, pcPub, pcBkt, pcSz, ParChain] at *; done)
+      | grind [upd, Alloc, klt, wtop, wstk, wdum, wnode, tkey, okeyS, okeyU, pcTop, pcStk, pcDum, pcStart, pcPrev, pcCur, pcNx,
+          pcGtCur, pcEq, pcFrozen, pcPP, pcPub, pcBkt, pcSz, skeyS, skeyU, ParChain]))
 
 macro "eff_close" : tactic =>
-  `(tactic| (constructor <;> intros <;> (try dsimp only [St.mem] at *) <;>
+  `(tactic| (constructor <;> intros <;> (try dsimp only at *) <;>
       grind [upd, Alloc, klt, wtop, wnode, okeyS, okeyU, lpRet, postRet, opOf, tent, foundRet, absentRet, gop]))
 
 end CdsVerif.Algo.SplitList
